@@ -120,6 +120,8 @@ def server_part(ctx):
         meta.append((desc, files, routes, targets, canary))
     im = ctx.impl(lines)
     ctx.evaluations += len(lines)
+    from props import srvmodel
+    srvmodel.compare(ctx, lines, im, 'static-server', 'directory routes of the config-driven server')
     # the model, per request: the route chosen by the routing rule, then StaticFs.directory_handler on the same tree
     mlines, mref = [], []
     for k, (desc, files, routes, targets, canary) in enumerate(meta):
